@@ -32,3 +32,20 @@ package diagnostics
 //@ ensures implies(diag == nil, len(d.Diagnostics) == old(len(d.Diagnostics)))
 //@ ensures implies(diag != nil, len(d.Diagnostics) == old(len(d.Diagnostics)) + 1 && d.Diagnostics[old(len(d.Diagnostics))] == old(*diag))
 //@ ensures forall(i, 0, old(len(d.Diagnostics)), d.Diagnostics[i] == old(d.Diagnostics[i]))
+
+// sevImplies(e, sev, q): if entity e carries a diagnostic of a requested severity then q  (universal form: solver friendly)
+//@ spec sevImplies(e EntityDiagnostic, sev []DiagnosticSeverity, q bool) bool = forall(j, 0, len(e.Diagnostics), forall(s, 0, len(sev), implies(sev[s] == e.Diagnostics[j].Severity, q)))
+
+// Gate of the pipeline: an entity (or a direct child entity) carrying a diagnostic of a requested severity
+// makes the result non-empty.
+//@ func GetDiagnosticsWithSeverity props C10,C18,C14
+//@ ensures top: forall(i, 0, len(diags), sevImplies(diags[i], severities, len(result) > 0))
+//@ ensures child: forall(i, 0, len(diags), forall(c, 0, len(diags[i].Children), implies(diags[i].Children[c] != nil, sevImplies(*diags[i].Children[c], severities, len(result) > 0))))
+//@ ensures fresh(result)
+//@ loop 0 invariant 0 <= _n && _n <= len(diags) && fresh(matching)
+//@ loop 0 invariant forall(i, 0, _n, sevImplies(diags[i], severities, len(matching) > 0))
+//@ loop 0 invariant forall(i, 0, _n, forall(c, 0, len(diags[i].Children), implies(diags[i].Children[c] != nil, sevImplies(*diags[i].Children[c], severities, len(matching) > 0))))
+//@ loop 1 invariant 0 <= _n1 && _n1 <= len(diagEntity.Diagnostics) && fresh(matching)
+//@ loop 1 invariant forall(i, 0, _n0, sevImplies(diags[i], severities, len(matching) > 0))
+//@ loop 1 invariant forall(j, 0, _n1, forall(s, 0, len(severities), implies(severities[s] == diagEntity.Diagnostics[j].Severity, len(matching) > 0)))
+//@ loop 1 invariant forall(i, 0, _n0, forall(c, 0, len(diags[i].Children), implies(diags[i].Children[c] != nil, sevImplies(*diags[i].Children[c], severities, len(matching) > 0))))
